@@ -40,7 +40,7 @@ def gen_blob_doc(draw, focus=None):
     fields = []
     offset = draw(st.integers(0, 7))
     is_str = True if focus else draw(st.booleans())
-    form = draw(st.sampled_from(["fixed", "dyn", "dyn", "lookup"]))
+    form = draw(st.sampled_from(["fixed", "dyn", "dyn", "lookup"] + (["fixed", "fixed"] if focus else [])))
     if form in ("dyn", "lookup"):
         types.append(_int_type("LEN", draw(st.sampled_from([8, 8, 6, 4, 3]))))
         fields.append("LEN")
@@ -95,7 +95,7 @@ def gen_blob_doc(draw, focus=None):
                             "value": max(1, bits_value())})
         ln = {"t": "lookup", "entries": entries}
     if is_str:
-        cs = draw(st.sampled_from(list(xdoc.CHARSETS) + (["UTF-8"] * 4 + ["UTF-32", "UTF-16"] if focus else [])))
+        cs = draw(st.sampled_from(list(xdoc.CHARSETS) + (["UTF-8"] * 4 + ["UTF-32", "UTF-32", "UTF-32BE", "UTF-32LE", "UTF-16"] if focus else [])))
         enc = {"k": "str", "charset": cs, "order": draw(st.sampled_from([xgen.BE, xgen.LE])) if cs in xdoc.MULTIBYTE else None,
                "len": ln, "delim": None}
         kind = "term" if focus else draw(st.sampled_from(["none", "term", "term", "lead", "lead"]))
@@ -164,6 +164,7 @@ def check_case(ctx, case):
                 ref = first(1 if cell[1]["charset"] == "UTF-8" else len(t))
                 if first(1) != ref:
                     ctx.cls("terminator: a byte-wise search would stop earlier")
+                    ctx.cls("terminator: a byte-wise search would stop earlier | " + cell[1]["charset"])
                 if first(len(t)) != ref:
                     ctx.cls("terminator: a search stepping the terminator's width would miss it")
         for name, ln, form in ex.res.lengths:
